@@ -193,7 +193,20 @@ CLAIMED["C02"] = (
     "structural induction. Arithmetic of the number types is not decided.",
     _NOTE, "DESIGN.md section 5, C02")
 
-for _p in ["C03", "C10"]:
+CLAIMED["C03"] = (
+    "path enumeration of every operator dunder with guards normalised to atoms "
+    "(operand is 0 / is 1 / has unsupported type / is of the same n-ary class) "
+    "and results normalised to self/other/constant/node(operand order); "
+    "shortcut pairs checked against a table of valid identities; census for "
+    "ordering overrides",
+    "All (operator, guard, result) triples of the overloads are enumerated, so "
+    "every construction-time shortcut and every operand order is decided, "
+    "including the reflected and splicing variants that sampling rarely "
+    "reaches. Value equality follows with C02 by induction and is not decided "
+    "mechanically.",
+    _NOTE, "DESIGN.md section 5, C03")
+
+for _p in ["C10"]:
     NOT_APPLICABLE[_p] = ("check under construction in this revision (see "
                           "DESIGN.md for the planned static rule)")
 NOT_APPLICABLE["C18"] = (
